@@ -2,6 +2,7 @@ package main
 
 import (
 	"fmt"
+	"go/types"
 	"runtime/debug"
 	"strings"
 
@@ -427,6 +428,8 @@ func (e *Exec) vpCall(caller *frame, fn *ssa.Function, args []Value) Value {
 	case "Symbolic":
 		return tc.True
 	case "Observe":
+		lbl, _ := args[0].(*StrV).conc()
+		e.observe(lbl, args[1].(Iface))
 		return nil
 	case "Now":
 		return e.now()
@@ -486,8 +489,9 @@ func (e *Exec) flushCovers() {
 		e.model, e.modelOK = m, true
 	}
 	d := e.snapshotDraws(e.model)
+	obs := e.renderObs(e.model)
 	for _, l := range need {
-		e.eng.noteCover(e.h, l, d, e.decisions)
+		e.eng.noteCover(e.h, l, d, e.decisions, obs)
 	}
 }
 
@@ -609,4 +613,86 @@ func (e *Exec) panicString(v Value) string {
 		return itf.t.String() + describe(x)
 	}
 	return itf.t.String()
+}
+
+
+// observe records a value whose rendering under the witness model is compared
+// with what the natively compiled harness prints (predicted vs native output).
+type obsRec struct {
+	label string
+	terms []*Term
+	kind  string // int, uint, bool, bytes, string
+}
+
+func (e *Exec) observe(label string, v Iface) {
+	if v.t == nil {
+		return
+	}
+	switch ut := types.Unalias(v.t).(type) { // unnamed basic types, string and []byte only
+	case *types.Basic:
+	case *types.Slice:
+		if b, ok := types.Unalias(ut.Elem()).(*types.Basic); !ok || b.Kind() != types.Uint8 {
+			return
+		}
+	default:
+		return
+	}
+	r := obsRec{label: label}
+	switch x := v.v.(type) {
+	case *Term:
+		r.terms = []*Term{x}
+		switch {
+		case x.w == 0:
+			r.kind = "bool"
+		case isUnsigned(v.t):
+			r.kind = "uint"
+		default:
+			r.kind = "int"
+		}
+	case *StrV:
+		r.terms, r.kind = x.b, "string"
+	case Slice:
+		for _, c := range x.c {
+			t, ok := c.(*Term)
+			if !ok || t.w != 8 {
+				return
+			}
+			r.terms = append(r.terms, t)
+		}
+		r.kind = "bytes"
+	default:
+		return
+	}
+	e.obs = append(e.obs, r)
+}
+
+func (e *Exec) renderObs(m Model) []string {
+	var out []string
+	for _, r := range e.obs {
+		for _, t := range r.terms {
+			if t.uf {
+				return out // not evaluable: stop comparing from here on
+			}
+		}
+		var sb strings.Builder
+		sb.WriteString(r.label + "=")
+		switch r.kind {
+		case "bool":
+			v, _ := e.tc.Eval(r.terms[0], m, nil)
+			fmt.Fprintf(&sb, "%v", v != 0)
+		case "uint":
+			v, _ := e.tc.Eval(r.terms[0], m, nil)
+			fmt.Fprintf(&sb, "%d", v)
+		case "int":
+			v, _ := e.tc.Eval(r.terms[0], m, nil)
+			fmt.Fprintf(&sb, "%d", sext(v, r.terms[0].w))
+		default:
+			for _, t := range r.terms {
+				v, _ := e.tc.Eval(t, m, nil)
+				fmt.Fprintf(&sb, "%02x", v&0xff)
+			}
+		}
+		out = append(out, sb.String())
+	}
+	return out
 }
